@@ -4,7 +4,7 @@ CONSTANTS
   MaxCols = 3
   MaxClauses = 1
   Searches = {"*", "x=1"}
-  CmdsWithCols = {"fields", "dedup", "sort", "top", "rare"}
+  CmdsWithCols = {"fields", "dedup", "dedup 2", "sort", "sort 0", "sort 2", "sort -", "top", "top 0", "rare"}
   CmdsWithBy = {"stats count", "stats sum(x)", "timechart count", "streamstats count", "eventstats count"}
 INVARIANT Bound
 CONSTRAINT Emit
